@@ -2,6 +2,22 @@
 import json
 
 
+import re as _re
+
+_ADDR = _re.compile(r" at 0x[0-9a-fA-F]+")
+
+
+def _scrub(x):
+    """memory addresses in reprs differ from run to run: remove them so that replays compare equal"""
+    if isinstance(x, str):
+        return _ADDR.sub("", x)
+    if isinstance(x, dict):
+        return {k: _scrub(v) for k, v in x.items()}
+    if isinstance(x, (list, tuple)):
+        return [_scrub(v) for v in x]
+    return x
+
+
 class Stats:
     MAXV = 200
 
@@ -42,6 +58,7 @@ class Stats:
 
     def violation(self, site, kind, case, observed=None, expected=None, detail=None):
         self.nviol += 1
+        observed, expected, detail = _scrub(observed), _scrub(expected), _scrub(detail)
         k = f"{site}|{kind}"
         self._cls[k] = self._cls.get(k, 0) + 1
         if self._cls[k] <= 25 and len(self.violations) < self.MAXV:
